@@ -33,7 +33,8 @@ def run(report: Report, tier, seed):
     run_contracts(report, [("contracts.c03_options", "OptimizeScratchSlots", "O3.2a"),
                            ("contracts.c03_options", "UseFramePointers", "O3.2b"),
                            ("contracts.c03_optimizer", "HasLoadDependencies", "O3.5"),
-                           ("contracts.c03_optimizer", "ApplySlotToStack", "O3.4")])
+                           ("contracts.c03_optimizer", "ApplySlotToStack", "O3.4"),
+                           ("contracts.c03_optimizer", "RemoveExtraneousSlotAccess", "O3.6")])
     from . import opt_native
     oc, of = opt_native.check_has_load_dependencies()
     report.bounded.append(Bounded(function="pyteal.compiler.optimizer.optimizer._has_load_dependencies", contract="True iff another load of the slot exists anywhere in the routine",
